@@ -39,7 +39,9 @@ func raceShapes(root string) [][]string {
 	f := func(n string) string { return filepath.Join(root, n) }
 	var shapes [][]string
 	shapes = append(shapes, nil, []string{f("a")}, []string{f("a"), f("b")}, []string{f("a"), f("a"), f("b")}, []string{f("dd"), f("a")},
-		[]string{f("gone"), f("a"), f("b")}, []string{f("a"), f("gone")}, []string{f("dang"), f("gone"), f("a"), f("b"), f("noperm")})
+		[]string{f("gone"), f("a"), f("b")}, []string{f("a"), f("gone")}, []string{f("dang"), f("gone"), f("a"), f("b"), f("noperm")},
+		// several files larger than any plausible read buffer, read by different workers at the same time
+		[]string{f("big0"), f("big1"), f("big2"), f("a"), f("big3"), f("b"), f("big4"), f("big5")})
 	for _, n := range []int{runtime.NumCPU() - 1, runtime.NumCPU(), runtime.NumCPU() + 1, 4 * runtime.NumCPU(), 1000} {
 		var l []string
 		for i := 0; i < n; i++ {
@@ -132,6 +134,9 @@ func materialiseRace(root string) {
 	os.Symlink(filepath.Join(root, "nowhere"), filepath.Join(root, "dang"))
 	os.WriteFile(filepath.Join(root, "noperm"), []byte("s"), 0o000)
 	os.Chmod(filepath.Join(root, "noperm"), 0o000)
+	for i := 0; i < 6; i++ {
+		os.WriteFile(filepath.Join(root, fmt.Sprintf("big%d", i)), []byte(strings.Repeat(fmt.Sprintf("%d-large-", i), 330000)), 0o644)
+	}
 	for i := 0; i < 300; i++ {
 		os.WriteFile(filepath.Join(root, "many", fmt.Sprintf("f%04d", i)), []byte(fmt.Sprintf("content %d", i)), 0o644)
 	}
